@@ -48,6 +48,11 @@ class Summary:
                  if kind == 'exc' and (name is None or val == name)]
         return z3.Or(*conds) if conds else z3.BoolVal(False)
 
+    def where(self, pred):
+        """z3 formula: the outcome (kind, value) satisfies *pred*."""
+        conds = [pc for pc, kind, val in self.rows if pred(kind, val)]
+        return z3.Or(*conds) if conds else z3.BoolVal(False)
+
     def exc_names(self):
         return sorted({val for pc, kind, val in self.rows if kind == 'exc'})
 
@@ -273,8 +278,7 @@ class SymCtx:
             if isinstance(v, (SymChoice, SymInt)):
                 raise Unmodelled('observe() of an unconcretised choice')
             if isinstance(v, Summary):
-                return [[k, bool(x) if k == 'ret' else x]
-                        for k, x in v.describe(model)]
+                return [[k, x] for k, x in v.describe(model)]
             if isinstance(v, (list, tuple)):
                 return [ev(x) for x in v]
             if isinstance(v, dict):
@@ -425,8 +429,7 @@ class ConcreteCtx:
 
     def observe(self, name, value):
         if isinstance(value, Summary):
-            value = [[k, bool(x) if k == 'ret' else x]
-                     for k, x in value.describe()]
+            value = [[k, x] for k, x in value.describe()]
         self.obs.append([name, jsonable(value)])
 
     def require(self, cond, label, key=None, detail=None):
